@@ -404,8 +404,12 @@ def c06_one(beh, seed, sandbox):
         return {"verdict": "out", "why": "backslash before a line ending: manual and binary disagree"}
     os.makedirs(sandbox, exist_ok=True)
     ok, cm_err = cmake_accepts(text, sandbox, "f")
-    if not ok and "Expected a newline" in cm_err:
-        return {"verdict": "out", "why": "two commands on one line: not one of C06's fault classes"}
+    if not ok and any(m in cm_err for m in NOT_A_C06_FAULT):
+        return {"verdict": "out", "why": "CMake's complaint is not one of C06's fault classes: " + cm_err[-120:]}
+    if _re.search(r"\r(?!\n)", text):
+        # a fault that splits a CR LF pair leaves a lone CR: CMinx's grammar takes it for a line ending, CMake does not
+        # (a line comment runs on to the next LF) - a disagreement about line endings, not one of C06's fault classes
+        return {"verdict": "out", "why": "lone carriage return"}
     invalid_escape = False
     if ftext.startswith("\\") and len(ftext) == 2 and ftext[1].isalnum() and ftext[1] not in "tnr":
         invalid_escape = not (fstart > 0 and text[fstart - 1] == "\\")
@@ -471,6 +475,38 @@ def c06_one(beh, seed, sandbox):
 FAULT_STRINGS = ['"', "\\", "#[[", "#[=[", "(", ")", "zz", '"q']
 
 
+# CMake parse errors that are not one of C06's fault classes (unterminated string / bracket comment, invalid escape,
+# unbalanced parentheses, stray text): a missing line ending between two commands, two arguments that touch, a
+# bracket comment between a command name and its parenthesis
+NOT_A_C06_FAULT = ("Expected a newline", "Argument not separated from preceding token", "got bracket comment")
+
+
+def name_paren_split(text):
+    """CMake wants a command name and its "(" on one line; CMinx's grammar skips line endings everywhere, so
+    `name NEWLINE (args)` is a command for it.  True if that layout occurs at top level AND the real lexer's tokens
+    form a sentence of CMake.g4 (harness/parseh.fault_class: no stray token, parentheses balanced) - then CMake's
+    'Expected "(", got newline' is about this layout and not about a bare word CMinx would have to report."""
+    import parseh
+    toks, errs = real_lex(text)
+    if errs:
+        return False
+    kinds = []
+    for nm, a, b in toks:
+        t = text[a:b + 1]
+        kinds.append("lp" if t == "(" else "rp" if t == ")" else
+                     {"Identifier": "id", "Unquoted_argument": "unq", "Quoted_argument": "quo", "Bracket_argument": "brk",
+                      "Docstring": "doc", "Module_docstring": "mdoc"}.get(nm, "other"))
+    if "other" in kinds or parseh.fault_class(kinds) is not None or kinds.count("lp") != kinds.count("rp"):
+        return False
+    depth = 0
+    for j, k in enumerate(kinds):
+        if depth == 0 and k == "id" and j + 1 < len(kinds) and kinds[j + 1] == "lp" \
+                and _re.search(r"[\r\n]", text[toks[j][2] + 1:toks[j + 1][1]]):
+            return True
+        depth += 1 if k == "lp" else -1 if k == "rp" else 0
+    return False
+
+
 def c06_pair(beh, seed, sandbox):
     """two faults: the TLC-injected one plus a second one at a seeded position; the reference is the cmake binary only"""
     import naming
@@ -487,7 +523,7 @@ def c06_pair(beh, seed, sandbox):
     ok, cm_err = cmake_accepts(text2, sandbox, "p")
     if ok:
         return {"verdict": "harmless"}
-    if "Expected a newline" in cm_err or _re.search(r"\\[\r\n]", text2):
+    if any(m in cm_err for m in NOT_A_C06_FAULT) or _re.search(r"\\[\r\n]", text2) or _re.search(r"\r(?!\n)", text2):
         # two commands on one line (CMake wants a line ending after every command; not one of C06's fault classes:
         # parentheses balanced, no stray text) and backslash-newline (manual and binary disagree) are not judged
         return {"verdict": "out"}
@@ -503,6 +539,8 @@ def c06_pair(beh, seed, sandbox):
     lookalike = any(nm == "Unquoted_argument" and _re.match(r"^\[(=*)\[", text2[a:b + 1])
                     and not _re.match(r"^\[(=*)\[.*\]\1\]$", text2[a:b + 1], _re.S) for nm, a, b in toks)
     failed = exc1 is not None and not exc1.startswith("SystemExit: 0") and not exc1.startswith("SystemExit: None")
+    if (not failed or page1) and 'Expected "(", got newline' in cm_err and name_paren_split(text2):
+        return {"verdict": "out"}
     if not failed or page1:
         case = {"text": text2, "fault": [beh["fault"]["t"], f2], "at": p2, "context": "pair", "cmake_parse_error": True,
                 "invalid_escape": False, "bracket_lookalike_unquoted": bool(lookalike)}
